@@ -458,37 +458,69 @@ func checkC05(P *Program, r *Result, tier string) {
 	}
 
 	// ---- STICKY: w.err first ----
+	// A test of w.err (as it was on entry) guards every effect of the method, and on its non-nil side the
+	// stored error is what is returned — whatever the control-flow shape (if/return, switch, merged tails).
 	for _, name := range []string{"Malloc", "WriteBinary", "Flush"} {
 		fn := ms[name]
+		fa := A.fa(fn)
 		ok := false
-		detail := "the first action must be: if w.err != nil { return w.err }"
-		entry := fn.Blocks[0]
-		if iff, isIf := entry.Instrs[len(entry.Instrs)-1].(*ssa.If); isIf {
-			if bo, isB := iff.Cond.(*ssa.BinOp); isB && bo.Op == token.NEQ && isNilConst(bo.Y) && isLoadOfField(fn, bo.X, "err") {
-				clean := true
-				for _, in := range entry.Instrs {
-					switch in.(type) {
-					case *ssa.Store, ssa.CallInstruction:
-						clean = false
-					}
+		detail := "no test of the stored error guards the method"
+		key := "P:" + fn.Params[0].Name() + ".err"
+		for _, b := range fn.Blocks {
+			for _, in := range b.Instrs {
+				bo, isB := in.(*ssa.BinOp)
+				if !isB || (bo.Op != token.NEQ && bo.Op != token.EQL) || !isNilConst(bo.Y) || !isLoadOfField(fn, bo.X, "err") {
+					continue
 				}
-				retOK := false
-				tb := entry.Succs[0]
-				if ret, isRet := tb.Instrs[len(tb.Instrs)-1].(*ssa.Return); isRet {
-					ev := ret.Results[len(ret.Results)-1]
-					if isLoadOfField(fn, ev, "err") {
-						retOK = true
-					}
-					for _, in := range tb.Instrs {
-						switch in.(type) {
-						case *ssa.Store, ssa.CallInstruction:
+				if v := fa.mem.versionAt(bo.X.(ssa.Instruction), key); v != nil && v.Kind != mEntry {
+					continue
+				}
+				nilTruth := bo.Op == token.EQL // truth value of the test that means "no stored error"
+				clean := true
+				why := ""
+				for _, b2 := range fn.Blocks {
+					for _, in2 := range b2.Instrs {
+						effect := false
+						switch x := in2.(type) {
+						case *ssa.Store:
+							if k := pathOf(x.Addr); !privatePath(k) {
+								effect = true
+							}
+						case ssa.CallInstruction:
+							if _, isBuiltin := x.Common().Value.(*ssa.Builtin); !isBuiltin {
+								effect = true
+							}
+						}
+						if effect && !guardedBy(in2, bo, nilTruth) {
 							clean = false
+							why = "an effect at " + P.pos(instrPos(in2)) + " is not guarded by the stored-error test"
 						}
 					}
 				}
-				ok = clean && retOK
-				if ok {
-					detail = ""
+				retOK := false
+				for _, rc := range retCases(fn) {
+					onErrSide := guardedBy(rc.at, bo, !nilTruth)
+					if iff, isIf := rc.at.(*ssa.If); isIf && rc.pred >= 0 && iff.Cond == ssa.Value(bo) {
+						onErrSide = (iff.Block().Succs[0] == rc.ret.Block()) == !nilTruth
+					}
+					if !onErrSide {
+						continue
+					}
+					ev := rc.results[len(rc.results)-1]
+					if isLoadOfField(fn, ev, "err") {
+						retOK = true
+					} else {
+						retOK = false
+						why = "the stored error is not what is returned at " + P.pos(instrPos(rc.ret))
+						break
+					}
+				}
+				if clean && retOK {
+					ok, detail = true, ""
+				} else if why != "" {
+					detail = why
+				} else if !retOK {
+					detail = "no return hands back the stored error"
 				}
 			}
 		}
